@@ -155,11 +155,11 @@ def gen_stream(rng, head, force=None):
         hdrs.append(rng.choice([b"Transfer-Encoding: chunked", b"transfer-encoding: Chunked", b"Transfer-Encoding:chunked"]))
         i = 0
         while i < len(body):
-            n = rng.choice([1, 1, 2, 3, 7, 16, 40])
+            n = rng.choice([1, 1, 2, 3, 7, 16, 40] if force is None else [1, 2, 3])      # pinned streams: several chunks
             c = body[i:i + n]
             i += n
             size = rng.choice([b"%x", b"%X", b"0%x"]) % len(c)
-            ext = rng.choice([b"", b"", b"", b";a=b", b";x", b"; q=\"v\""])
+            ext = rng.choice([b"", b"", b"", b";a=b", b";x", b"; q=\"v\""] if force is None else [b"", b";a=b", b";x", b"; q=\"v\"", b";name=value;n2"])
             tail += size + ext + b"\r\n" + c + b"\r\n"
         tail += rng.choice([b"0", b"0", b"00", b"0;e=1"]) + b"\r\n" + rng.choice([b"", b"", b"X-T: v\r\n", b"A: 1\r\nB: 2\r\n"]) + b"\r\n"
         desc.append("%d chunked %d" % (code, len(body)))
@@ -194,6 +194,12 @@ def cuts_for(rng, p, mode):
 def scns_for_stream(rng, stream, head, desc, positions, modes):
     out = []
     timing = ["now", "later", "now", "later", "never"]
+    n = len(stream)
+    # every two-piece segmentation of the complete stream (cut at every listed position), loss after the end
+    for c in positions:
+        if 0 < c < n:
+            out.append({"stream": stream, "head": head, "dbody": timing[c % 5], "cuts": [c, n - c], "desc": desc,
+                        "later_at": rng.choice([0, 1, 2, 3]), "clean": c % 2 == 0, "persistent": rng.random() < 0.5})
     for p in positions:
         for mi, mode in enumerate(modes):
             dbody = timing[(p + mi) % 5]
@@ -284,7 +290,7 @@ def run(ctx):
         scns += scns_for_stream(ctx.rng, stream, head, desc, positions, ["one", "tail", "random"])
     ctx.exhaustive = False
     ctx.extra["streams"] = nstreams
-    ctx.extra["rule_positions"] = "connection loss at every octet position of every generated stream (quick: 40 sampled positions plus those around the end of the head and of the message for streams longer than 60 octets), each with one-piece, octet-wise-tail and random segmentation"
+    ctx.extra["rule_positions"] = "connection loss at every octet position of every generated stream (quick: 40 sampled positions plus those around the end of the head and of the message for streams longer than 60 octets), each with one-piece, octet-wise-tail and random segmentation, plus every two-piece segmentation of the complete stream"
     traces = [run_scn(s) for s in scns]
     ctx.note_traces(traces)
     ctx.log("recorded %d real executions over %d streams" % (len(traces), nstreams))
